@@ -8,7 +8,7 @@ namespace KeyFile
 /-! ## rawLines -/
 
 theorem rawLinesAux_noNL (l : Bytes) : ∀ cur : Bytes, 10 ∉ l →
-    rawLinesAux cur l = if cur ++ l = [] then [] else [cur ++ l] := by
+    rawLinesAux cur l = if cur.reverse ++ l = [] then [] else [cur.reverse ++ l] := by
   induction l with
   | nil => intro cur _; simp [rawLinesAux]
   | cons c cs ih =>
@@ -20,7 +20,7 @@ theorem rawLinesAux_noNL (l : Bytes) : ∀ cur : Bytes, 10 ∉ l →
     simp
 
 theorem rawLinesAux_line (l : Bytes) : ∀ (cur rest : Bytes), 10 ∉ l →
-    rawLinesAux cur (l ++ 10 :: rest) = (cur ++ l) :: rawLinesAux [] rest := by
+    rawLinesAux cur (l ++ 10 :: rest) = (cur.reverse ++ l) :: rawLinesAux [] rest := by
   induction l with
   | nil => intro cur rest _; simp [rawLinesAux]
   | cons c cs ih =>
@@ -36,7 +36,9 @@ theorem rawLines_line (l rest : Bytes) (h : 10 ∉ l) :
   simpa [rawLines] using rawLinesAux_line l [] rest h
 
 theorem rawLines_noNL (l : Bytes) (h : 10 ∉ l) : rawLines l = if l = [] then [] else [l] := by
-  simpa [rawLines] using rawLinesAux_noNL l [] h
+  unfold rawLines
+  rw [rawLinesAux_noNL l [] h]
+  by_cases hl : l = [] <;> simp [hl]
 
 theorem rawLines_joinLF (ls : List Bytes) (tail : Bytes) (h : ∀ l ∈ ls, 10 ∉ l) :
     rawLines (joinLF ls ++ tail) = ls ++ rawLines tail := by
